@@ -119,6 +119,8 @@ deriving DecidableEq, Repr, Inhabited
 
 def DVal.inNoneTypes : DVal → Bool | .val d => d.inNoneTypes | .node _ => false
 def DVal.isNoneStr : DVal → Bool | .val d => d.isNoneStr | .node _ => false
+/-- `param.get("default") == NoneStr` -/
+def isNoneStrD : Option DVal → Bool | some d => d.isNoneStr | none => false
 
 /-! ## IR -/
 
